@@ -26,3 +26,9 @@ Definition d5_text : pystr :=
 Theorem C08_render_full_refuted_D5 : ~ C08_render_full.
 Proof. intro H. specialize (H d5_text). vm_compute in H. specialize (H eq_refl). discriminate H. Qed.
 Print Assumptions C08_render_full_refuted_D5.
+
+(* doublequote_string (total on single-line text, ValueError otherwise) is regenerated from its source text on every run *)
+From PyDBML Require Import GenFns GenFnTie.
+Theorem C08_doublequote_string_regenerated_from_source : forall s, gen_doublequote_string s = doublequote_string s.
+Proof. exact gen_doublequote_string_is_model. Qed.
+Print Assumptions C08_doublequote_string_regenerated_from_source.
